@@ -202,14 +202,6 @@ Fixpoint map_tree (f : expr -> expr) (t : ctree expr) : ctree expr :=
 
 (* ---------- comparisons used by the evaluation streams ---------- *)
 
-Definition cmpQ_rel (tol : Q) (a b : option Q) : nat :=
-  match a, b with
-  | Some x, Some y =>
-      if Qeq_bool x y then 0%nat
-      else if Qle_bool (Qabs' (x - y)) (tol * Qmax (Qabs' x) (Qabs' y)) then 0%nat else 1%nat
-  | _, _ => 2%nat
-  end.
-
 (* values of tree a read in environment ra  vs  values of tree b read in environment rb *)
 Fixpoint cmp_trees2 (fuel : nat) (c : option Q -> option Q -> nat) (ra rb : string -> Q) (a b : ctree expr) : list nat :=
   match fuel with
@@ -295,7 +287,8 @@ Definition check_eval_case (compiled : ctree expr) (s : env) (fm : list fimpl) (
       | IErr _ => []
       | IOk t1 =>
           (* simultaneous: value of the result at r = value of the original at (r after s) *)
-          (flat_map (fun r => match env_afterQ r s with
+          (* (implementations of user functions also apply to calls inside the assigned values) *)
+          (flat_map (fun r => match env_afterQ r (map (fun kv => (fst kv, apply_funs fm (snd kv))) s) with
                               | Some r' => cmp_trees2 fuel (cmp inexact) r r' t1 (map_tree (apply_funs fm) compiled)
                               | None => [2%nat]
                               end) rs
@@ -311,5 +304,20 @@ Definition check_eval_case (compiled : ctree expr) (s : env) (fm : list fimpl) (
               | IOk t3 => (flat_map (fun r => cmp_trees2 fuel (cmp true) r r t1 t3) rs ++ params_equal fuel t1 t3)%list
               | IErr c => if String.eqb c "skip" then [] else [1%nat]
               end)%list
+      end in
+  (tie, spec).
+
+(* ---------- C03: two compilations that differ by the renaming of one scope ---------- *)
+(* back : top-level input of the renamed compilation |-> the input of the original it corresponds to *)
+Definition check_rename_case (r' : routine) (i i' : impl_result) (back : list (string * string))
+           (inexact : bool) (pts : list (list (string * Q))) : list nat * list nat :=
+  let tie := tie_compile r' i' inexact pts in
+  let spec :=
+      match i, i' with
+      | IOk t, IOk t' =>
+          flat_map (fun ra => let rb := fun x => match lookup x back with Some y => ra y | None => ra x end in
+                              cmp_trees2 (S (ct_height t)) (cmp inexact) ra rb t t') (points_of pts)
+      | IErr a, IErr b => [if String.eqb a b then 0%nat else 1%nat]
+      | _, _ => [1%nat]
       end in
   (tie, spec).
